@@ -121,6 +121,21 @@ def generate():
         for i, nm in enumerate(['clsb', 'clb', 'cls']):
             out.append(f'/-- component {i} of `AsymptoticCalculator.pvalues` (source sha256 {digest(calcmod.AsymptoticCalculator.pvalues)}…) -/')
             out.append(f'def asym_{nm} (Phi : K → K) (t shiftSB shiftB : K) : K :=\n{sx.lean_tree(sx.paths(lambda: run_pvalues(i)))}\n')
+        # ---- expected band: `expected_pvalues` through the real `distributions` (normal and clipped-normal base distribution, √q_A symbolic)
+        for base in ('normal', 'clipped_normal'):
+            def run_band():
+                calc = calcmod.AsymptoticCalculator([1.0], None, [1.0], [(0.0, 10.0)], [False], test_stat='qtilde', calc_base_dist=base)
+                calc.sqrtqmuA_v = np.asarray(var('sA'), dtype=object)
+                sbd, bd = calc.distributions(1.0)
+                clsb, clb, cls = calc.expected_pvalues(sbd, bd)
+                return [sx.lit(x) for x in clsb] + [sx.lit(x) for x in clb] + [sx.lit(x) for x in cls]
+            from harness.gen_model import project
+            btree = sx.paths(run_band, positive=['sA'] if base == 'clipped_normal' else ())
+            tag = 'normal' if base == 'normal' else 'clipped'
+            for j, nm in enumerate(['clsb', 'clb', 'cls']):
+                for k in range(5):
+                    out.append(f'/-- entry {k} (n_sigma = {[2, 1, 0, -1, -2][k]}) of the expected {nm} band, `AsymptoticCalculator.expected_pvalues` (source sha256 {digest(calcmod.AsymptoticCalculator.expected_pvalues)}…), base distribution {base!r}' + (', √q_A > 0' if base != 'normal' else '') + ' -/')
+                    out.append(f'def asym_band_{tag}_{nm}{k} (Phi : K → K) (nanK sA : K) : K :=\n{sx.lean_tree(project(btree, j * 5 + k))}\n')
         # ---- hypotest: which quantities are returned, in which order, for every flag combination (32-row table)
         infmod = sys.modules['pyhf.infer']
         ocreate, ocheck = infmod.utils.create_calculator, infmod._check_hypotest_prerequisites
